@@ -52,6 +52,11 @@ pub enum Val {
     Thread(Arc<ThreadCell>),
 }
 
+/// Error of a plain sequential evaluation that met a construct which needs more than one thread (a
+/// wait on a condition variable, a thread created by the program): the reference run is then
+/// repeated under the controlled scheduler with one scanner thread.
+pub const NEEDS_THREADS: &str = "this program creates threads or waits on a condition variable: it cannot be evaluated without a scheduler";
+
 /// A condition variable: a generation counter under the controlled scheduler's mutex + condvar.
 /// `signal` wakes every waiter (a legal superset of "wakes one": waiters must tolerate spurious
 /// wake-ups anyway); a signal with nobody waiting is lost, as in reality.
@@ -145,6 +150,9 @@ pub enum EvalErr {
     Runtime(String),
     /// `(throw key args ...)` / `(error ...)` not (yet) caught
     Thrown(String, Thrown),
+    /// not an error: a call in tail position, on its way back to the `apply` of the enclosing
+    /// procedure, which performs it in a loop (loops written as tail recursion do not nest)
+    TailCall(Thrown),
 }
 
 /// arguments of a throw (compared by nothing: two throws to one key are the same error)
@@ -161,6 +169,7 @@ impl EvalErr {
     pub fn settle(self) -> EvalErr {
         match self {
             EvalErr::Thrown(k, a) => EvalErr::Runtime(format!("uncaught throw to {k}: {:?}", a.0)),
+            EvalErr::TailCall(_) => EvalErr::Runtime("internal: tail call escaped its procedure".into()),
             other => other,
         }
     }
@@ -236,6 +245,7 @@ struct MutexCell {
     depth: AtomicUsize,
 }
 
+#[derive(Clone)]
 pub struct Knobs {
     /// scanner threads
     pub threads: usize,
@@ -310,11 +320,13 @@ pub struct Ctx {
     /// make-printer invocation in progress
     call: u64,
     depth: usize,
+    /// the form about to be evaluated is in tail position of the procedure body being applied
+    tail: bool,
 }
 
 impl Ctx {
     pub fn new(thread: usize) -> Ctx {
-        Ctx { thread, file: NO_FILE, writes_of_file: 0, call: 0, depth: 0 }
+        Ctx { thread, file: NO_FILE, writes_of_file: 0, call: 0, depth: 0, tail: false }
     }
 }
 
@@ -887,10 +899,11 @@ impl Runtime {
     }
 
     /// Evaluate a body; internal `define`s extend the environment of the forms that follow.
-    fn eval_body(self: &Arc<Self>, forms: &[Sexp], env: &Env, ctx: &mut Ctx) -> R {
+    fn eval_body(self: &Arc<Self>, forms: &[Sexp], env: &Env, ctx: &mut Ctx, tail: bool) -> R {
         let mut env = env.clone();
         let mut last = Val::Unspec;
-        for form in forms {
+        let n = forms.len();
+        for (i, form) in forms.iter().enumerate() {
             if let Sexp::List(items) = form {
                 if matches!(items.first(), Some(Sexp::Sym(h)) if h == "define") && lookup(&env, "define").is_none() {
                     env = self.define(items, &env, ctx)?;
@@ -898,27 +911,43 @@ impl Runtime {
                     continue;
                 }
             }
-            last = self.eval(form, &env, ctx)?;
+            last = self.eval_tail(form, &env, ctx, tail && i + 1 == n)?;
         }
         Ok(last)
     }
 
     pub fn apply(self: &Arc<Self>, f: &Val, args: Vec<Val>, ctx: &mut Ctx) -> R {
-        match f {
-            Val::Closure(c) => {
-                if c.params.len() != args.len() && !(c.rest.is_some() && args.len() > c.params.len()) {
-                    return runtime(format!("wrong number of arguments to procedure: expected {}, got {}", c.params.len(), args.len()));
-                }
-                let mut env = c.env.clone();
-                let mut args = args.into_iter();
-                for p in c.params.iter() {
-                    env = bind(&env, p, args.next().unwrap_or(Val::Unspec));
-                }
-                if let Some(r) = &c.rest {
-                    env = bind(&env, r, Val::List(Arc::new(args.collect())));
-                }
-                self.eval_body(&c.body, &env, ctx)
+        // calls in tail position of a procedure body come back here and are performed in this loop
+        let (mut f, mut args) = (f.clone(), args);
+        let mut rounds = 0u64;
+        while let Val::Closure(c) = &f {
+            rounds += 1;
+            if rounds > 50_000_000 {
+                return runtime("a loop written as tail recursion does not terminate");
             }
+            if c.params.len() != args.len() && !(c.rest.is_some() && args.len() > c.params.len()) {
+                return runtime(format!("wrong number of arguments to procedure: expected {}, got {}", c.params.len(), args.len()));
+            }
+            let mut env = c.env.clone();
+            let mut it = args.into_iter();
+            for p in c.params.iter() {
+                env = bind(&env, p, it.next().unwrap_or(Val::Unspec));
+            }
+            if let Some(r) = &c.rest {
+                env = bind(&env, r, Val::List(Arc::new(it.collect())));
+            }
+            match self.eval_body(&c.body, &env, ctx, true) {
+                Err(EvalErr::TailCall(Thrown(mut call))) => {
+                    let callee = call.remove(0);
+                    f = callee;
+                    args = call;
+                }
+                other => return other,
+            }
+        }
+        let f = &f;
+        match f {
+            Val::Closure(_) => unreachable!(),
             Val::Printer { port, mutex, term } => {
                 if args.len() != 1 {
                     return runtime("printer: expected one argument");
@@ -944,18 +973,25 @@ impl Runtime {
         }
     }
 
+    /// Evaluate a form that is in tail position of the enclosing procedure body.
+    fn eval_tail(self: &Arc<Self>, x: &Sexp, env: &Env, ctx: &mut Ctx, tail: bool) -> R {
+        ctx.tail = tail;
+        self.eval(x, env, ctx)
+    }
+
     pub fn eval(self: &Arc<Self>, x: &Sexp, env: &Env, ctx: &mut Ctx) -> R {
+        let tail = std::mem::replace(&mut ctx.tail, false);
         ctx.depth += 1;
         if ctx.depth > 400 {
             ctx.depth -= 1;
             return unsupported("expression nesting too deep for the stub evaluator");
         }
-        let r = self.eval_inner(x, env, ctx);
+        let r = self.eval_inner(x, env, ctx, tail);
         ctx.depth -= 1;
         r
     }
 
-    fn eval_inner(self: &Arc<Self>, x: &Sexp, env: &Env, ctx: &mut Ctx) -> R {
+    fn eval_inner(self: &Arc<Self>, x: &Sexp, env: &Env, ctx: &mut Ctx, tail: bool) -> R {
         match x {
             Sexp::Str(s) => Ok(Val::Str(Arc::from(s.as_str()))),
             Sexp::Char(c) => Ok(Val::Char(*c)),
@@ -1057,7 +1093,7 @@ impl Runtime {
                                         *f.val.lock().unwrap() = v;
                                     }
                                 }
-                                return self.eval_body(&items[2..], &inner, ctx);
+                                return self.eval_body(&items[2..], &inner, ctx, tail);
                             }
                             "let*" | "let" => {
                                 let Some(Sexp::List(bs)) = items.get(1) else { return unsupported("let without binding list") };
@@ -1078,7 +1114,7 @@ impl Runtime {
                                 for (n, v) in pending {
                                     inner = bind(&inner, &n, v);
                                 }
-                                return self.eval_body(&items[2..], &inner, ctx);
+                                return self.eval_body(&items[2..], &inner, ctx, tail);
                             }
                             "set!" => {
                                 let (Some(Sexp::Sym(n)), Some(init)) = (items.get(1), items.get(2)) else {
@@ -1108,8 +1144,9 @@ impl Runtime {
                                             return self.apply(&f, vec![hit], ctx);
                                         }
                                         let mut last = hit;
-                                        for form in &c[1..] {
-                                            last = self.eval(form, env, ctx)?;
+                                        let n = c.len() - 1;
+                                        for (i, form) in c[1..].iter().enumerate() {
+                                            last = self.eval_tail(form, env, ctx, tail && i + 1 == n)?;
                                         }
                                         return Ok(last);
                                     }
@@ -1133,8 +1170,9 @@ impl Runtime {
                                     };
                                     if hit {
                                         let mut last = Val::Unspec;
-                                        for form in &c[1..] {
-                                            last = self.eval(form, env, ctx)?;
+                                        let n = c.len() - 1;
+                                        for (i, form) in c[1..].iter().enumerate() {
+                                            last = self.eval_tail(form, env, ctx, tail && i + 1 == n)?;
                                         }
                                         return Ok(last);
                                     }
@@ -1216,7 +1254,7 @@ impl Runtime {
                                         inner = bind(&inner, n, v);
                                     }
                                 }
-                                return self.eval_body(&items[2..], &inner, ctx);
+                                return self.eval_body(&items[2..], &inner, ctx, tail);
                             }
                             "false-if-exception" => {
                                 let mut last = Val::Unspec;
@@ -1231,15 +1269,17 @@ impl Runtime {
                             }
                             "begin" => {
                                 let mut last = Val::Unspec;
-                                for form in &items[1..] {
-                                    last = self.eval(form, env, ctx)?;
+                                let n = items.len() - 1;
+                                for (i, form) in items[1..].iter().enumerate() {
+                                    last = self.eval_tail(form, env, ctx, tail && i + 1 == n)?;
                                 }
                                 return Ok(last);
                             }
                             "and" => {
                                 let mut last = Val::Bool(true);
-                                for form in &items[1..] {
-                                    last = self.eval(form, env, ctx)?;
+                                let n = items.len() - 1;
+                                for (i, form) in items[1..].iter().enumerate() {
+                                    last = self.eval_tail(form, env, ctx, tail && i + 1 == n)?;
                                     if !truthy(&last) {
                                         return Ok(last);
                                     }
@@ -1247,8 +1287,9 @@ impl Runtime {
                                 return Ok(last);
                             }
                             "or" => {
-                                for form in &items[1..] {
-                                    let v = self.eval(form, env, ctx)?;
+                                let n = items.len() - 1;
+                                for (i, form) in items[1..].iter().enumerate() {
+                                    let v = self.eval_tail(form, env, ctx, tail && i + 1 == n)?;
                                     if truthy(&v) {
                                         return Ok(v);
                                     }
@@ -1258,9 +1299,9 @@ impl Runtime {
                             "if" => {
                                 let c = self.eval(items.get(1).ok_or(EvalErr::Runtime("if without test".into()))?, env, ctx)?;
                                 return if truthy(&c) {
-                                    self.eval(items.get(2).ok_or(EvalErr::Runtime("if without consequent".into()))?, env, ctx)
+                                    self.eval_tail(items.get(2).ok_or(EvalErr::Runtime("if without consequent".into()))?, env, ctx, tail)
                                 } else if let Some(alt) = items.get(3) {
-                                    self.eval(alt, env, ctx)
+                                    self.eval_tail(alt, env, ctx, tail)
                                 } else {
                                     Ok(Val::Unspec)
                                 };
@@ -1269,8 +1310,9 @@ impl Runtime {
                                 let c = self.eval(items.get(1).ok_or(EvalErr::Runtime("when without test".into()))?, env, ctx)?;
                                 if truthy(&c) == (s == "when") {
                                     let mut last = Val::Unspec;
-                                    for form in &items[2..] {
-                                        last = self.eval(form, env, ctx)?;
+                                    let n = items.len() - 2;
+                                    for (i, form) in items[2..].iter().enumerate() {
+                                        last = self.eval_tail(form, env, ctx, tail && i + 1 == n)?;
                                     }
                                     return Ok(last);
                                 }
@@ -1296,6 +1338,12 @@ impl Runtime {
                 let mut args = Vec::with_capacity(items.len() - 1);
                 for a in &items[1..] {
                     args.push(self.eval(a, env, ctx)?);
+                }
+                if tail && matches!(f, Val::Closure(_)) {
+                    // performed by the `apply` of the enclosing procedure
+                    let mut call = vec![f];
+                    call.extend(args);
+                    return Err(EvalErr::TailCall(Thrown(call)));
                 }
                 self.apply(&f, args, ctx)
             }
@@ -1721,6 +1769,7 @@ impl Runtime {
                             EvalErr::Thrown(k, a) => (k, a.0),
                             EvalErr::Runtime(m) => ("misc-error".to_string(), vec![Val::Str(Arc::from(m.as_str()))]),
                             EvalErr::Unsupported(_) => unreachable!(),
+                            EvalErr::TailCall(_) => ("misc-error".to_string(), vec![]),
                         };
                         let wanted = match key {
                             Val::Bool(true) => true,
@@ -1746,7 +1795,7 @@ impl Runtime {
             }))),
             "wait-condition-variable" => {
                 let (Some(Val::CondVar(cv)), Some(Val::Mutex(m))) = (args.first(), args.get(1)) else { return runtime("wait-condition-variable: expected a condition variable and a mutex") };
-                let Some((gen, cond)) = &cv.sh else { return runtime("wait-condition-variable: nobody can signal in a sequential run (mutex and condition wait would block for ever)") };
+                let Some((gen, cond)) = &cv.sh else { return runtime(NEEDS_THREADS) };
                 let timed = args.len() > 2;
                 // the generation is read while the mutex is still held: a signal sent after the
                 // release below is seen, one sent before this call is lost
@@ -1780,12 +1829,8 @@ impl Runtime {
             "call-with-new-thread" | "begin-thread-thunk" => {
                 let Some(thunk) = args.first().cloned() else { return runtime("call-with-new-thread: missing thunk") };
                 if !self.concurrent {
-                    // a sequential run has one thread: the thunk runs to completion here
-                    let v = self.apply(&thunk, vec![], ctx)?;
-                    return Ok(Val::Thread(Arc::new(ThreadCell { handle: StdMutex::new(None), id: 0 }))).map(|t| {
-                        let _ = v;
-                        t
-                    });
+                    // a program that creates threads cannot be evaluated without a scheduler
+                    return runtime(NEEDS_THREADS);
                 }
                 let id = 1000 + self.calls.fetch_add(1, Ordering::SeqCst) as usize;
                 let rt = self.clone();
@@ -2778,7 +2823,7 @@ impl Runtime {
             }
         }
         let mut ctx = Ctx::new(MAIN_THREAD);
-        let r = self.eval_body(forms, &None, &mut ctx);
+        let r = self.eval_body(forms, &None, &mut ctx, false);
         self.flush_all(&ctx);
         r.map_err(EvalErr::settle)?;
         Ok(())
